@@ -164,7 +164,7 @@ impl<T> Array<T> {
         let data = data.into();
         let shape = shape.into();
 
-        if data.len() == shape.elements() {
+        if Some(data.len()) == shape.checked_elements() {
             Ok(Array::new_unchecked(data, shape))
         } else {
             Err(ShapeError {
